@@ -140,3 +140,80 @@ Proof.
     rewrite nth_error_app2, Nat.sub_diag by lia. cbn [nth_error]. f_equal. exact IH. }
   exact (G []%list L).
 Qed.
+
+(* ---------- network SendCommand / SendCommands / SendConfigs: which level an operation acquires ----------
+   (C04, last sentence of the property; the model is NetworkHistory.run_aop) *)
+
+Inductive ns_out :=
+| NsForward (acquired : option string) (fwd : string)   (* acquire (or not), then hand over to the generic driver *)
+| NsPrivError                                           (* "failed acquiring default desired privilege level" *)
+| NsError                                               (* the acquire's own error *)
+| NsBad.
+
+(* cached_default: d.CurrentPriv == d.DefaultDesiredPriv; acq_ok: AcquirePriv succeeds; priv_empty:
+   the operation names no privilege level *)
+Definition ns_env (cached_default acq_ok priv_empty : bool) : denv :=
+  mkEnvX (fun _ => false)
+         (fun a b => String.eqb a "d.CurrentPriv" && String.eqb b "d.DefaultDesiredPriv" && cached_default)
+         (fun _ => "") (fun _ => None)
+         (fun st a b =>
+            if String.eqb a "err" && String.eqb b "nil" then
+              match sget st "err" with
+              | Some v => if String.prefix "d.AcquirePriv(" v then Some (Some acq_ok) else Some None
+              | None => Some (Some true)          (* NewOperation(opts...) succeeded *)
+              end
+            else if String.eqb a "targetPriv" && String.eqb b """""" then
+              match sget st "targetPriv" with
+              | Some "op.PrivilegeLevel" => Some (Some priv_empty)
+              | _ => Some None
+              end
+            else None)
+         (fun _ => O) (fun _ _ => None).
+
+Definition ns_run (code : list dstmt) (cached_default acq_ok priv_empty : bool) : ns_out :=
+  match DecideLang.exec 20 (ns_env cached_default acq_ok priv_empty) code [] with
+  | Returned st v =>
+      let acquired := match sget st "err" with
+                      | Some "d.AcquirePriv(d.DefaultDesiredPriv)" => Some "default"
+                      | Some "d.AcquirePriv(targetPriv)" =>
+                          match sget st "targetPriv" with
+                          | Some "op.PrivilegeLevel" => Some "requested"
+                          | Some "defaultConfigurationPrivLevel" => Some "configuration"
+                          | _ => Some "?"
+                          end
+                      | Some _ => Some "?"
+                      | None => None
+                      end in
+      if String.prefix "d.Driver.Send" v then NsForward acquired v
+      else if String.eqb v "nil, fmt.Errorf( ""%w: failed acquiring default desired privilege level"", util.ErrPrivilegeError, )" then NsPrivError
+      else if String.eqb v "nil, err" then NsError
+      else NsBad
+  | _ => NsBad
+  end.
+
+Definition ns_out_eqb (a b : ns_out) : bool :=
+  match a, b with
+  | NsForward x f, NsForward y g =>
+      String.eqb f g && match x, y with None, None => true | Some s, Some t => String.eqb s t | _, _ => false end
+  | NsPrivError, NsPrivError | NsError, NsError => true
+  | _, _ => false
+  end.
+
+(* commands: no acquire when the cached level is the default desired level (the shortcut, F25),
+   else acquire the DEFAULT level; configs: ALWAYS acquire — the requested level, "configuration"
+   when none is requested *)
+Definition ns_table_ok : bool :=
+  forallb (fun cd => forallb (fun ok => forallb (fun pe =>
+    ns_out_eqb (ns_run net_send_command_code cd ok pe)
+               (if cd then NsForward None "d.Driver.SendCommand(command, opts...)"
+                else if ok then NsForward (Some "default") "d.Driver.SendCommand(command, opts...)" else NsPrivError)
+    && ns_out_eqb (ns_run net_send_commands_code cd ok pe)
+               (if cd then NsForward None "d.Driver.SendCommands(commands, opts...)"
+                else if ok then NsForward (Some "default") "d.Driver.SendCommands(commands, opts...)" else NsPrivError)
+    && ns_out_eqb (ns_run net_send_configs_code cd ok pe)
+               (if ok then NsForward (Some (if pe then "configuration" else "requested")) "d.Driver.SendCommands(configs, opts...)"
+                else NsError))
+    [true; false]) [true; false]) [true; false].
+
+Theorem net_send_is_source : ns_table_ok = true.
+Proof. vm_compute. reflexivity. Qed.
